@@ -1089,6 +1089,9 @@ class SRPExtension(TLSExtension):
 
         self.identity = p.getVarBytes(1)
 
+        if p.getRemainingLength():
+            raise DecodeError("Trailing data in SRP extension")
+
         return self
 
 
@@ -1347,6 +1350,9 @@ class TACKExtension(TLSExtension):
             self.tacks += [tack]
         p.stopLengthCheck()
         self.activation_flags = p.get(1)
+
+        if p.getRemainingLength():
+            raise DecodeError("Trailing data in TACK extension")
 
         return self
 
